@@ -436,26 +436,8 @@ fn thread_cpu_us() -> u64 {
 /// out: when a (mutated) file repeats an id, WeakDom replaces the later one with `UniqueId::now()` (C12), which is
 /// different on every decode by design.
 fn stable_digest(d: &rbx_dom_weak::WeakDom) -> String {
-    fn mask(v: &mut J) {
-        match v {
-            J::Object(o) => {
-                if let Some(p) = o.get_mut("props").and_then(|p| p.as_object_mut()) {
-                    if let Some(u) = p.get_mut("UniqueId") {
-                        if u["t"] == "UniqueId" {
-                            *u = json!({"t": "UniqueId"});
-                        }
-                    }
-                }
-                for (_, x) in o.iter_mut() {
-                    mask(x);
-                }
-            }
-            J::Array(a) => a.iter_mut().for_each(mask),
-            _ => {}
-        }
-    }
     let mut dump = canon::dump_decoded(d);
-    mask(&mut dump);
+    canon::mask_unique_id(&mut dump);
     format!("{:016x}", canon::digest(&dump))
 }
 
